@@ -1080,6 +1080,7 @@ def rule_K7(run: Run, prog: Program) -> int:
         if fn.parent is not None:
             continue
         params = set(fn.param_names())
+        bool_params = {p.arg for p in fn.params() if p.annotation is not None and "bool" in ast.unparse(p.annotation)}
         tests = _tests_of(fn)
         if len(tests) > 7:
             continue
@@ -1132,7 +1133,31 @@ def rule_K7(run: Run, prog: Program) -> int:
                                 bufs.pop(x.id, None)
                     elif isinstance(tgt, ast.Subscript) and isinstance(tgt.value, ast.Name) and tgt.value.id in bufs:
                         pd, cst = bufs[tgt.value.id]
-                        pv = dep_of(val) - {fn.params()[0].arg if fn.cls is not None and not fn.is_staticmethod and fn.params() else ""}
+
+                        def dtype_deps(e: ast.AST) -> set[str]:
+                            """parameters that can widen the dtype of the value e: conditions, masks, indices and truth values do not"""
+                            if isinstance(e, ast.Compare) or (isinstance(e, ast.UnaryOp) and isinstance(e.op, (ast.Invert, ast.Not))):
+                                return set()
+                            if isinstance(e, ast.Call):
+                                f_ = e.func
+                                nm_ = f_.attr if isinstance(f_, ast.Attribute) else getattr(f_, "id", "")
+                                if nm_ == "where" and len(e.args) == 3:
+                                    return dtype_deps(e.args[1]) | dtype_deps(e.args[2])
+                                if nm_.startswith(("is", "logical_")) or nm_ in ("any", "all", "allclose", "array_equal", "nonzero", "argmax", "argmin", "argsort"):
+                                    return set()
+                            if isinstance(e, ast.Subscript):
+                                return dtype_deps(e.value)
+                            if isinstance(e, ast.Name):
+                                return set(deps.get(e.id, set())) - bool_params
+                            out_: set[str] = set()
+                            for ch in ast.iter_child_nodes(e):
+                                if isinstance(ch, ast.expr):
+                                    out_ |= dtype_deps(ch)
+                                elif isinstance(ch, ast.keyword):
+                                    out_ |= dtype_deps(ch.value)
+                            return out_
+
+                        pv = dtype_deps(val) - {fn.params()[0].arg if fn.cls is not None and not fn.is_staticmethod and fn.params() else ""}
                         key = norm_stmt(st)
                         if pv and not pv <= pd:
                             findings[key] = (st, cst, sorted(pv - pd), sorted(pd))
